@@ -25,7 +25,7 @@ from fractions import Fraction
 import numpy as np
 
 from common import Property, rat, unrat, rats
-from c15 import gen_grid, node_iter, GENERAL, FIXED, BASE, MINPTS, FRACS, is_fixed
+from c15 import gen_grid, node_iter, GENERAL, FIXED, BASE, MINPTS, FRACS, is_fixed, probe_flags
 
 LINEAR = ['slinear', 'lagrange2', 'lagrange3', 'cubic']
 SPLINE = ['slinear', 'lagrange2', 'lagrange3', 'cubic', 'akima', 'bsplines']
@@ -83,6 +83,13 @@ class C16(Property):
         "modelled, not verified; scipy_* methods out of scope.")
     technique = "Lean 4 proof (dual numbers over fields) + exact-rational differential correspondence"
     trusted_extra = ["Problem.compute_totals plumbing for component partials (differential only)"]
+
+    akima_fix = False
+
+    def translate(self):
+        _, self.akima_fix = probe_flags()
+        return ['akima end conditions: %s' % ('independent blocks (repaired)' if self.akima_fix
+                                              else 'elif chain (as pinned)')]
 
     def setup(self, tier):
         import openmdao.api  # noqa: F401
@@ -460,12 +467,12 @@ class C16(Property):
             for row in case['values']:
                 for p in case['pts']:
                     reqs.append({'op': 'grad', 'method': base, 'grids': case['grids'], 'values': row,
-                                 'pt': p, 'dv': True})
+                                 'pt': p, 'dv': True, 'akimaFix': bool(self.akima_fix)})
             return reqs
         want_dv = kind == 'train' or (kind == 'mmsc' and case['train_grad'])
         for p in case['pts']:
             reqs.append({'op': 'grad', 'method': base, 'grids': case['grids'], 'values': case['values'],
-                         'pt': p, 'dv': want_dv})
+                         'pt': p, 'dv': want_dv, 'akimaFix': bool(self.akima_fix)})
         return reqs
 
     def compare(self, case, impl, answers):
